@@ -166,7 +166,7 @@ func Leaf(t *rapid.T, o ValOpts) rc.Val {
 		v := Int64Val(t, o)
 		if o.Spellings && rapid.IntRange(0, 7).Draw(t, "held-as-big.Int") == 0 {
 			// a number that fits 64 bits but is held as big.Int / *big.Int by the caller
-			v.Sp = rapid.SampledFrom([]uint8{rc.SpBigInt, rc.SpBigIntPtr}).Draw(t, "bigsp")
+			v.Sp = rapid.SampledFrom([]uint8{rc.SpBigInt, rc.SpBigIntPtr, rc.SpTime}).Draw(t, "bigsp")
 		}
 		return v
 	case 2:
@@ -327,8 +327,14 @@ func padTarget(t *rapid.T, huge bool) int {
 // MediaType draws a conforming type/subtype string.
 func MediaType(t *rapid.T) string {
 	s := rapid.StringMatching(`[a-z]{1,8}/[a-z0-9.+-]{1,12}`).Draw(t, "mediatype")
-	if rapid.IntRange(0, 3).Draw(t, "mtparam") == 0 {
+	switch rapid.IntRange(0, 7).Draw(t, "mtparam") {
+	case 0:
 		s += "; charset=" + rapid.StringMatching(`[a-z0-9-]{1,6}`).Draw(t, "mtcharset")
+	case 1:
+		// RFC 9110 5.6.6: optional whitespace around the ";" of a parameter, several parameters, quoted values,
+		// upper case - all of it one type "/" subtype with parameters
+		s = rapid.SampledFrom([]string{"text/plain ; charset=utf-8", "text/plain;charset=utf-8", "text/plain \t; charset=utf-8", "Text/Plain; Charset=UTF-8",
+			"application/cose; cose-type=\"cose-sign1\"", "application/x.y+cbor;a=1;b=2", "application/cbor; q=\"a b\" ; v=1", "a/b;", "a/b ;x"}).Draw(t, "mtodd")
 	}
 	return s
 }
